@@ -304,6 +304,10 @@ class Gen:
             self.feats.add("indented-code")
             lines = [r.choice([c for c in CODE_LINES if c.strip()]) for _ in range(r.randint(1, 3))]
             lines = [ln.lstrip() if i == 0 else ln for i, ln in enumerate(lines)]
+            if r.random() < 0.4:
+                self.feats.add("fence-like-content")
+                lines.insert(r.randint(0, len(lines)), r.choice(["```", "~~~", "``` x", "````", "  ```"]))
+                lines[0] = lines[0].lstrip()
             return {"t": "icode", "lines": [ln.rstrip() or "x" for ln in lines]}
         self.feats.add("fence")
         ch = r.choice(["`", "`", "~"])
@@ -578,7 +582,7 @@ def gen_doc(seed: int, profile: str = "core", layout_seed: int | None = None, wi
     tree = g.blocks(0, "top", n)
     if tree[0]["t"] == "icode":
         # flowmark documents dedent + strip of its input: a leading indented code block is not one
-        tree[0] = {"t": "fence", "ch": "`", "n": 3, "info": "", "lines": tree[0]["lines"]}
+        tree[0] = {"t": "fence", "ch": "~", "n": 8, "info": "", "lines": tree[0]["lines"]}
     if tree[0]["t"] == "hr" and tree[0]["s"].startswith("---"):
         tree[0]["s"] = "***"  # a leading '---' line opens YAML frontmatter (C07), not a rule
     if profile == "tags":
